@@ -20,7 +20,11 @@
 (*   module_dfs()           DfsStep with the recursion as `dstack`; the    *)
 (*                          visited marks: 0 never, -visit in progress,    *)
 (*                          >0 post-init done  (Bug = "D12": the marks as  *)
-(*                          they were before commit 47cba46)               *)
+(*                          they were before commit 47cba46); the optional *)
+(*                          module_post_init is looked up with dlsym and   *)
+(*                          skipped when absent, the mark is set either    *)
+(*                          way  (Bug = "NoPostNoMark": early return 0     *)
+(*                          without the mark when there is no post-init)   *)
 (*   call_exit_funcs()      module_close_all() is run twice (directly and  *)
 (*                          through module_clean)                          *)
 (*   module_close_all()     CloseRounds (do/while over the set, `next`     *)
@@ -30,7 +34,17 @@
 (*                          RE-CREATES an entry that is already gone),     *)
 (*                          const_string_vector_remove of all occurrences, *)
 (*                          destructor through dlsym (a NULL handle means  *)
-(*                          RTLD_DEFAULT: first still-open module)         *)
+(*                          RTLD_DEFAULT: first still-open module that has *)
+(*                          one); a module without module_destructor is    *)
+(*                          unlinked from its dependencies' rdepends all   *)
+(*                          the same  (Bug = "NoDtorNoUnlink": the unlink  *)
+(*                          loop only runs when a destructor was found)    *)
+(*                                                                         *)
+(* The hook profile (which modules lack module_post_init / lack            *)
+(* module_destructor) is part of the case chosen in Init: Profiles =       *)
+(* "full" (every module has both), "all" (every profile), "good" (every    *)
+(* profile for GOOD cases, "full" for the others; Python draws profiles    *)
+(* for a sample of those and hands them back through a case file).         *)
 (*                                                                         *)
 (* B is deterministic: one behaviour per initial state; the initial states *)
 (* are the cases.  Source = "enum": all cases with n <= MaxN modules that  *)
@@ -48,10 +62,12 @@ CONSTANTS
     DepOrders,   \* enum: "asc" (declarations in name order) | "all" (every call order)
     WithMissing, \* enum: also cases with one dependency-free module whose .so does not exist
     WithAnti,    \* enum: also module_antidepends() edges (outside the contract; exploration only)
+    Profiles,    \* enum: "full" | "all" | "good"  (hook profiles, see above)
     Bug          \* "none" | "D12" (module_dfs before commit 47cba46)
+                 \* | "NoPostNoMark" | "NoDtorNoUnlink" (regressions on the paths for absent hooks)
 
 VARIABLES
-    cs,        \* the case: [n, deps, anti, backend, list, missing]      (never changes)
+    cs,        \* the case: [n, deps, anti, backend, list, missing, nopost, nodtor]  (never changes)
     phase,     \* "load" | "prepass" | "walk" | "close" | "exited"
     mods,      \* names present in the `modules` set (iterated in name order)
     depends, rdepends, handle, visited, backend,    \* struct module fields, by name
@@ -84,7 +100,8 @@ NoAnti(n)   == [m \in 1..n |-> <<>>]
 
 FileCases == ndJsonDeserialize(IOEnv.CASES)
 FileCase(r) == [n |-> r.n, deps |-> r.deps, anti |-> NoAnti(r.n), backend |-> {},
-                list |-> r.list, missing |-> Range(r.missing)]
+                list |-> r.list, missing |-> Range(r.missing),
+                nopost |-> Range(r.nopost), nodtor |-> Range(r.nodtor)]
 
 \* every module is named in the list, pulled in by a dependency, or pulled in by an anti-dependency
 AllPulledIn(c) ==
@@ -116,6 +133,13 @@ AntiGraphs(n, d) ==
     ELSE {NoAnti(n)}
 MissingChoices(n, d, a) ==
     {{}} \cup (IF WithMissing THEN {{m} : m \in {y \in 1..n : d[y] = <<>> /\ a[y] = <<>>}} ELSE {})
+\* hook profiles <<nopost, nodtor>> of the enumeration; a module without a shared object has no profile
+ProfileChoices(c) ==
+    LET L   == SUBSET ((1..c.n) \ c.missing)
+        AnyP == L \X L
+    IN CASE Profiles = "full" -> {<<{}, {}>>}
+         [] Profiles = "all"  -> AnyP
+         [] Profiles = "good" -> IF Good(c) THEN AnyP ELSE {<<{}, {}>>}
 
 Init ==
     IF Source = "file"
@@ -126,7 +150,10 @@ Init ==
          \E l \in Listings(n) :
          \E x \in MissingChoices(n, d, a) :
             LET c == [n |-> n, deps |-> d, anti |-> a, backend |-> {}, list |-> l, missing |-> x]
-            IN AllPulledIn(c) /\ InitCase(c)
+            IN /\ AllPulledIn(c)
+               /\ \E p \in ProfileChoices(c) :
+                     InitCase([n |-> n, deps |-> d, anti |-> a, backend |-> {}, list |-> l, missing |-> x,
+                               nopost |-> p[1], nodtor |-> p[2]])
 
 (* ------------------------------ helpers ------------------------------ *)
 
@@ -290,10 +317,15 @@ DfsStep ==
                  /\ dstack' = SetTop(dstack, [m |-> m, i |-> i + 1])
                  /\ UNCHANGED <<cs, phase, mods, depends, rdepends, handle, visited, backend, ii, lstack, visit,
                                 node, closing, log, status>>
-       ELSE \* all dependencies done: post-init, mark, return 0
+       ELSE \* all dependencies done:
+            \*   if (module->handle && (func = dlsym(module->handle, "module_post_init"))) func(module);
+            \*   module->visited = visit; return 0;
+            \* the mark is set whether or not the module has a post-init
+            LET found == handle[m] /\ m \notin cs.nopost IN
             DfsReturn(0, Pop(dstack),
-                      IF Bug = "D12" THEN visited ELSE [visited EXCEPT ![m] = visit],
-                      IF handle[m] THEN Emit("post-init", m) ELSE log)
+                      IF Bug = "D12" \/ (Bug = "NoPostNoMark" /\ ~found) THEN visited
+                      ELSE [visited EXCEPT ![m] = visit],
+                      IF found THEN Emit("post-init", m) ELSE log)
 
 (* ------------------------------ module_close_all ------------------------------ *)
 
@@ -305,17 +337,22 @@ CleanupDeps(ms, rd, ds, m) ==
          \* module_get(o) inserts a fresh entry when o is no longer (or not yet again) in the set
          CleanupDeps(ms \cup {o}, [rd EXCEPT ![o] = RemoveAll(@, m)], Tail(ds), m)
 
-\* dlsym(module->handle, "module_destructor"): a NULL handle is RTLD_DEFAULT, which finds the
-\* destructor of the first still-open module in dlopen order (= order of the ctor-begin events)
+\* dlsym(module->handle, "module_destructor"): 0 = NULL, the module has none (func is not called).
+\* A NULL handle is RTLD_DEFAULT, which finds the destructor of the first still-open module in
+\* dlopen order (= order of the ctor-begin events) that has one.
 DtorFound(m) ==
-    IF handle[m] THEN m
-    ELSE LET open == {i \in 1..Len(log) : log[i].e = "ctor-begin" /\ handle[log[i].m]}
+    IF handle[m] THEN (IF m \in cs.nodtor THEN 0 ELSE m)
+    ELSE IF Bug = "NoDtorNoUnlink" THEN 0        \* that version asks dlsym only when there is a handle
+    ELSE LET open == {i \in 1..Len(log) : /\ log[i].e = "ctor-begin" /\ handle[log[i].m]
+                                           /\ log[i].m \notin cs.nodtor}
          IN IF open = {} THEN 0 ELSE log[First(open)].m
 
 \* set_remove(&modules, module, 0): unlink, then module_cleanup(), then free
 SetRemove(m) ==
-    LET st == CleanupDeps(mods \ {m}, rdepends, depends[m], m)
-        d  == DtorFound(m)
+    LET d  == DtorFound(m)
+        \* the loop over module->depends runs for every module, with or without a destructor
+        st == IF Bug = "NoDtorNoUnlink" /\ d = 0 THEN [mods |-> mods \ {m}, rdepends |-> rdepends]
+              ELSE CleanupDeps(mods \ {m}, rdepends, depends[m], m)
     IN /\ mods' = st.mods
        /\ rdepends' = [st.rdepends EXCEPT ![m] = <<>>]     \* freed, or the fresh zeroed entry of the same name
        /\ depends' = [depends EXCEPT ![m] = <<>>]
@@ -411,7 +448,8 @@ AntiUnloadedAfter ==
 EmitCase ==
     (phase' = "exited" /\ phase # "exited") =>
         PrintT("@@E" \o ToJson([n |-> cs.n, deps |-> cs.deps, list |-> cs.list,
-                                 missing |-> SortedSeq(cs.missing), class |-> Class(cs),
+                                 missing |-> SortedSeq(cs.missing), nopost |-> SortedSeq(cs.nopost),
+                                 nodtor |-> SortedSeq(cs.nodtor), class |-> Class(cs),
                                  log |-> [i \in 1..Len(log') |-> <<log'[i].e, log'[i].m>>],
                                  status |-> status']))
 =============================================================================
